@@ -42,8 +42,10 @@ NO_MATCH = [':active', ':current', ':focus', ':focus-visible', ':focus-within', 
             ':past', ':paused', ':playing', ':target', ':target-within', ':user-invalid', ':visited', ':current(p)', ':host(p)',
             ':host-context(p)', 'a:hover', 'p:focus']
 PLAIN_ALTS = ['p', '.a', '*', 'span']
+FOREIGN = ['foreignObject', 'linearGradient', 'svg|foreignObject', 'p, foreignObject', 'circle', 'svg|circle, linearGradient']
 FOCUS = [(a, b) for a in HTML_ONLY for b in SENSITIVE] + [(b, a) for a in HTML_ONLY for b in SENSITIVE] + \
-    [(a, b) for a in PLAIN_ALTS for b in NO_MATCH] + [(b, a) for a in PLAIN_ALTS for b in NO_MATCH]
+    [(a, b) for a in PLAIN_ALTS for b in NO_MATCH] + [(b, a) for a in PLAIN_ALTS for b in NO_MATCH] + \
+    [(a, b) for a in FOREIGN for b in PLAIN_ALTS] + [(b, a) for a in FOREIGN for b in PLAIN_ALTS]
 NFOCUS = len(FOCUS)
 
 
